@@ -9,8 +9,16 @@ import (
 
 type floatDecoder struct {
 	op         func(unsafe.Pointer, float64)
+	bitSize    int // 32 for a float32 destination (range and rounding of the destination), otherwise 64
 	structName string
 	fieldName  string
+}
+
+func (d *floatDecoder) parseFloat(s string) (float64, error) {
+	if d.bitSize == 32 {
+		return strconv.ParseFloat(s, 32)
+	}
+	return strconv.ParseFloat(s, 64)
 }
 
 func newFloatDecoder(structName, fieldName string, op func(unsafe.Pointer, float64)) *floatDecoder {
@@ -127,7 +135,7 @@ func (d *floatDecoder) DecodeStream(s *Stream, depth int64, p unsafe.Pointer) er
 		return nil
 	}
 	str := *(*string)(unsafe.Pointer(&bytes))
-	f64, err := strconv.ParseFloat(str, 64)
+	f64, err := d.parseFloat(str)
 	if err != nil {
 		return errors.ErrSyntax(err.Error(), s.totalOffset())
 	}
@@ -149,7 +157,7 @@ func (d *floatDecoder) Decode(ctx *RuntimeContext, cursor, depth int64, p unsafe
 		return 0, errors.ErrUnexpectedEndOfJSON("float", cursor)
 	}
 	s := *(*string)(unsafe.Pointer(&bytes))
-	f64, err := strconv.ParseFloat(s, 64)
+	f64, err := d.parseFloat(s)
 	if err != nil {
 		return 0, errors.ErrSyntax(err.Error(), cursor)
 	}
